@@ -147,6 +147,21 @@ def main():
             T.append('raises("%s too many arguments", lambda: k.get_v_%s(1), "TypeError")' % (n, n))
             T.append('raises("%s too few arguments", lambda: k.set_v_%s(), "TypeError")' % (n, n))
             T.append('expect("%s unchanged after failed calls", lambda: k.get_v_%s(), %d)' % (n, n, v))
+            # constness: a const view of the object must not reach a non-const parameter or a non-const method
+            T.append('cv = k.cself_%s()' % n)
+            T.append('expect("%s const view reads", lambda: cv.get_v_%s(), %d)' % (n, n, v))
+            T.append('raises("%s const object passed where a non-const reference is required", lambda: k.mut_%s(cv), "TypeError")' % (n, n))
+            T.append('raises("%s non-const method on a const object", lambda: cv.set_v_%s(1), "TypeError")' % (n, n))
+            T.append('expect("%s unchanged after rejected const uses", lambda: k.get_v_%s(), %d)' % (n, n, v))
+            T.append('expect("%s non-const reference parameter", lambda: (k.mut_%s(o2), o2.get_v_%s()), (1, 1005))' % (n, n, n))
+            T.append('expect("%s sibling overload", lambda: k.mut_%s(4), 2)' % (n, n))
+            T.append('del cv')
+            # keyword arguments on a set overloaded by arity
+            T.append('expect("%s one keyword argument", lambda: k.scale_%s(factor=3), 30)' % (n, n))
+            T.append('expect("%s two keyword arguments", lambda: k.scale_%s(offset=4, factor=3), 34)' % (n, n))
+            T.append('expect("%s positional + keyword", lambda: k.scale_%s(2, offset=5), 25)' % (n, n))
+            T.append('raises("%s wrong keyword name", lambda: k.scale_%s(offset=3), "TypeError")' % (n, n))
+            T.append('raises("%s unknown keyword", lambda: k.scale_%s(nothing=3), "TypeError")' % (n, n))
             T.append('del o2')
             for s in c['ovsets']:
                 ovl = '(' + ' '.join('(' + ' '.join({'int': 'll' if (mixed and j % 2) else 'int', 'float': 'double', 'str': 'string'}.get(cat) or '(class %d)' % ids[cls] for cat, cls in o['vec']) + ')'
